@@ -201,7 +201,7 @@ def gen_template_program(rng):
     insts = []
     world = ""
     for k in range(rng.randrange(1, 4)):
-        kind = rng.choice(["TN", "NN", "T", "TT"])
+        kind = rng.choice(["TN", "NN", "T", "TT", "DEF", "NDEF"])
         name = "Tp%d" % k
         if kind == "TN":
             params, args = "class T, int N", lambda: "%s, %d" % (rng.choice(ELEMS), rng.choice([2, 3, 4, 8]))
@@ -212,7 +212,17 @@ def gen_template_program(rng):
             members = ["double cell[Rows][Cols];", "void load(const double src[Rows][Cols]);", "int rows() const;", "double (*row(int r))[Cols];"]
         elif kind == "T":
             params, args = "class T", lambda: rng.choice(ELEMS)
-            members = ["T value;", "T *ptr;", "const T &get() const;", "void set(const T &v);", "T (*fn)(T, int);", "typedef T *Pointer;", "typedef const T &Ref;"]
+            members = ["T value;", "T *ptr;", "const T &get() const;", "void set(const T &v);", "T (*fn)(T, int);", "typedef T *Pointer;", "typedef const T &Ref;",
+                       "void msg(T a, const char *fmt, ...);", "int count(const T *first, ...) const;"]
+        elif kind == "DEF":
+            # default arguments that refer to earlier parameters, which may themselves be left defaulted
+            params = "class T, class P = T *, class R = P const &"
+            args = lambda: rng.choice(["%s", "%s", "%s, char *", "%s, int *, int *const &"]) % rng.choice(ELEMS)
+            members = ["P slot;", "R peek(P where) const;", "void put(P where, R value);", "typedef R Ref;", "typedef P Ptr;", "T *raw;", "P *table[3];"]
+        elif kind == "NDEF":
+            params = "int Rows, int Cols = Rows, int Cells = Rows * Cols"
+            args = lambda: rng.choice(["%d", "%d", "%d, 3", "%d, 3, 7"]) % rng.choice([2, 4])
+            members = ["int cells[Cells];", "void fill(int (&c)[Cells], int r);", "double grid[Rows][Cols];", "int (*row(int r))[Cols];", "typedef int Line[Cols];"]
         else:
             params, args = "class A, class B", lambda: "%s, %s" % (rng.choice(ELEMS), rng.choice(ELEMS))
             members = ["A first;", "B second;", "A convert(const B &b) const;", "B *other(A a, const A *pa);", "typedef A First;"]
